@@ -11,6 +11,11 @@ panic).
     statsd h|d <name> <labels> <value texts> <rate text|~> <prefix|~> <globals>   → w=<n> d=<n> | panic
     statsd drain                                                   → emitted slices (hex list)
     statsd parse <payload>                                         → what the grammar-level reader sees
+    statsd cfg udp|unixgram|unix <max|~>                           → err | panic | ok max=<n> lp=<0|1>
+                                                                     (builder validation + the writer of Forwarder::run;
+                                                                      on `ok` the state becomes that writer)
+    statsd validate udp|unixgram|unix <max|~>                      → ok | err   (DogStatsDBuilder::validate_max_payload_len)
+    statsd fprefix <global prefix|~> <name>                        → the prefix State::flush passes for that name
 
 All strings are hex of their bytes; labels are `k:v` pairs.
 -/
@@ -55,6 +60,25 @@ def handle (st : St) (args : List String) : Option (St × String) :=
     let w ← st
     let (w', slices) := payloads w
     pure (some w', showList hexBytes slices)
+  | ["cfg", t, m] => do
+    let t ← (if t == "udp" then some Transport.udp else if t == "unixgram" then some Transport.unixgram
+             else if t == "unix" then some Transport.unix else none)
+    let m ← optTok String.toNat? m
+    match buildWriter t m Fixes.all with
+    | none => pure (none, "err")
+    | some none => pure (none, "panic")
+    | some (some w) => pure (some w, s!"ok max={w.max} lp={if w.lp then 1 else 0}")
+  | ["validate", t, m] => do
+    let t ← (if t == "udp" then some Transport.udp else if t == "unixgram" then some Transport.unixgram
+             else if t == "unix" then some Transport.unix else none)
+    let m ← optTok String.toNat? m
+    pure (st, if validateMaxPayloadLen t m then "ok" else "err")
+  | ["fprefix", g, name] => do
+    let g ← optTok unhexBytes g
+    let name ← unhexBytes name
+    match flushPrefix g name with
+    | some p => pure (st, hexBytes p)
+    | none => pure (st, "~")
   | ["parse", p] => do
     let p ← unhexBytes p
     match MetricsVerif.StatsdRead.parsePayload p with
